@@ -1,8 +1,8 @@
 package main
 
 import (
-	"strings"
 	"fmt"
+	"strings"
 
 	"golang.org/x/tools/go/ssa"
 )
@@ -67,7 +67,7 @@ func checkPerIteration(c *Ctx, rule string, fn *ssa.Function, over, callee strin
 				continue
 			}
 			match := l.elemTypeName() == over || l.Over == over
-			if !match && overLocal && (strings.HasPrefix(l.Over, "var:") || strings.HasPrefix(l.Over, "param:")) {
+			if !match && overLocal && (strings.HasPrefix(l.Over, "var:") || strings.HasPrefix(l.Over, "param:") || strings.HasPrefix(l.Over, "call:")) {
 				// innermost loop containing the call
 				match = true
 				for _, l2 := range loops {
